@@ -34,8 +34,9 @@ ASSUMPTIONS = [
     'interpreter with SIGSEGV (known C06 finding, swapped liquid surface matrices in boundaries.pyx); C06 runs liquid tops in '
     'child processes',
     'stacks whose first layer cannot be started (NotImplementedError of the starting driver: Kamata static-incompressible solid '
-    'core) are inadmissible by the code\'s own rule; starting vectors are Kamata (use_kamata=True) -- the surface/interface '
-    'algebra under test does not depend on the starting family',
+    'core; Takeuchi incompressible core other than a static liquid) are inadmissible by the code\'s own rule; Takeuchi '
+    'starting vectors are enumerated for stacks <= 2 layers (quick) / <= 3 layers (thorough), deeper stacks use Kamata only (the '
+    'surface/interface algebra under test does not depend on the starting family)',
     'asserted only for cases whose solves all succeed and that pass the convergence gate (joint solve repeated with rtol/100, '
     'atol/100 changes no Love number by more than 1e-4): dynamic liquid layers at low frequency are unstable (documented) and '
     'are removed by the gate, counted, never asserted',
@@ -88,27 +89,29 @@ def stacks(n, kinds=KINDS):
 def cases(tier, seed):
     out = []
 
-    def add(st, ls, profs, ws, nds, mode):
+    def add(st, ls, profs, ws, nds, mode, kams=(True,)):
         for l in ls:
             for p in profs:
                 for w in ws:
                     for nd in nds:
-                        out.append(dict(stack='/'.join(st), l=l, prof=p, w=w, nd=nd, mode=mode, seed=seed % len(SEED_FACTORS)))
+                        for kam in kams:
+                            out.append(dict(stack='/'.join(st), l=l, prof=p, w=w, nd=nd, kam=kam, mode=mode,
+                                            seed=seed % len(SEED_FACTORS)))
 
     LS, PR, WS = [2, 3], ['smooth', 'contrast'], [1e-3, 1e-4]
     if tier == 'quick':
         for n in (1, 2):
             for st in stacks(n):
-                add(st, LS, PR, WS, [True, False], 'full')
+                add(st, LS, PR, WS, [True, False], 'full', (True, False))
         for comp in 'ci':
             for st in stacks(3, [k[:2] + comp for k in KINDS4]):
                 add(st, LS, PR, WS, [True], 'joint')
     else:
         for n in (1, 2):
             for st in stacks(n):
-                add(st, LS, PR, WS, [True, False], 'full')
+                add(st, LS, PR, WS, [True, False], 'full', (True, False))
         for st in stacks(3):
-            add(st, LS, PR, WS, [True, False], 'joint')
+            add(st, LS, PR, WS, [True, False], 'joint', (True, False))
         for st in stacks(4):
             add(st, LS, PR, WS, [True], 'joint')
         for st in stacks(5, KINDS4):
@@ -143,12 +146,12 @@ def build(case):
     return st, layers, arrs, rhob, tops, types, stat, inc
 
 
-def _solve(f, arrs, w, rhob, types, stat, inc, tops, l, solve_for, nd, rtol, atol):
+def _solve(f, arrs, w, rhob, types, stat, inc, tops, l, solve_for, nd, rtol, atol, kam=True):
     """returns ('ok', result, love, named blocks) | ('fail', msg) | ('exc', type, msg)"""
     import numpy as np
     a = tuple(np.array(x, copy=True) for x in arrs)
     try:
-        out = f(*a, float(w), float(rhob), types, stat, inc, tops, degree_l=l, solve_for=solve_for, use_kamata=True,
+        out = f(*a, float(w), float(rhob), types, stat, inc, tops, degree_l=l, solve_for=solve_for, use_kamata=kam,
                 integration_method=METHOD, integration_rtol=rtol, integration_atol=atol, max_num_steps=MAX_STEPS,
                 nondimensionalize=nd)
     except Exception as e:  # the code under test; classified by the caller
@@ -191,11 +194,14 @@ def run_case(case):
         if len(viol) < 12:
             viol.append((site, detail))
 
-    expect_ni = st[0] == 'Ssi'          # Kamata: static incompressible solid core is not implemented
+    kam = case.get('kam', True)
+    # the starting driver's own rule: static liquids always start with Saito; Kamata has no static incompressible solid;
+    # Takeuchi has no incompressible start at all
+    expect_ni = (st[0] == 'Ssi') if kam else (st[0][2] == 'i' and st[0][:2] != 'Ls')
     menu = solve_for_menu(case['mode'])
     sols = {}
     for sf in menu:
-        s = _solve(f, arrs, w, rhob, types, stat, inc, tops, l, sf, nd, RTOL, ATOL)
+        s = _solve(f, arrs, w, rhob, types, stat, inc, tops, l, sf, nd, RTOL, ATOL, kam)
         if s[0] == 'exc':
             if s[1] == 'NotImplementedError' and expect_ni:
                 return dict(status='inadmissible:start-not-implemented', viol=[], obs=None)
@@ -205,7 +211,7 @@ def run_case(case):
             return dict(status='inadmissible:solver-failed', viol=[], obs=None, msg=s[1])
         sols[sf] = s
     # convergence gate on the joint solve
-    sg = _solve(f, arrs, w, rhob, types, stat, inc, tops, l, TYPES, nd, RTOL / 100., ATOL / 100.)
+    sg = _solve(f, arrs, w, rhob, types, stat, inc, tops, l, TYPES, nd, RTOL / 100., ATOL / 100., kam)
     if sg[0] != 'ok':
         return dict(status='inadmissible:gate-solve-failed', viol=[], obs=None)
     lj, lg = sols[TYPES][2], sg[2]
@@ -325,7 +331,7 @@ def run_case(case):
                 if not dlv <= TOL_INDEP * max(1.0, float(np.max(np.abs(love[ti])))):
                     V(f'C02/independence/{name}/love-differs-from-single-solve', solve_for=sf, diff=dlv)
     lv = sols[TYPES][2]
-    obs = (case['stack'], case['l'], case['prof'], case['w'], case['nd'],
+    obs = (case['stack'], case['l'], case['prof'], case['w'], case['nd'], kam,
            [round(float(x.real), 9) for x in lv[0]], [round(float(x.imag), 9) for x in lv[0]])
     out = dict(status='pass', viol=viol, obs=obs)
     if os.environ.get('VERIF_CALIB'):
@@ -342,13 +348,13 @@ def run(ctx):
     cs = cases(ctx.tier, ctx.seed)
     nst = len({c['stack'] for c in cs})
     rule = ('ALL solid-top layer stacks over {solid,liquid}x{static,dynamic}x{compressible,incompressible}: '
-            + ('1-2 layers (x nondimensionalize T/F, 11 solve_for tuples each) + all 3-layer stacks over {solid,liquid}x'
+            + ('1-2 layers (x nondimensionalize T/F x Kamata/Takeuchi start, 11 solve_for tuples each) + all 3-layer stacks over {solid,liquid}x'
                '{static,dynamic} with all layers compressible / all incompressible (4 solve_for tuples)'
                if ctx.tier == 'quick' else
-               '1-2 layers (11 solve_for tuples), 3 layers (x nondimensionalize T/F) and 4 layers (4 solve_for tuples), plus all '
+               '1-2 layers (x nd T/F x Kamata/Takeuchi, 11 solve_for tuples), 3 layers (x nd T/F x Kamata/Takeuchi) and 4 layers (4 solve_for tuples), plus all '
                '5-layer stacks over {solid,liquid}x{static,dynamic} (compressible, l=2, one profile, one frequency)')
             + f' = {nst} stacks x l{{2,3}} x profile{{smooth,contrast}} x frequency{{1e-3,1e-4}}; every case also runs a '
-              'convergence-gate solve; distinct = distinct (stack, l, profile, frequency, nd, tidal k/h/l rounded to 1e-9) among admitted cases')
+              'convergence-gate solve; distinct = distinct (stack, l, profile, frequency, nd, start family, tidal k/h/l rounded to 1e-9) among admitted cases')
     res = run_lattice(ctx, 'mc.props.C02:run_case', cs, rule=rule, exhaustive=True, min_admitted_frac=0.4)
     calib = os.environ.get('VERIF_CALIB')
     if calib:
@@ -359,7 +365,7 @@ def run(ctx):
                 if k == 'gate_val':
                     continue
                 if v > worst.get(k, (0.0, None))[0]:
-                    worst[k] = (v, c['stack'] + f" l={c['l']} {c['prof']} w={c['w']} nd={c['nd']}")
+                    worst[k] = (v, c['stack'] + f" l={c['l']} {c['prof']} w={c['w']} nd={c['nd']} kam={c['kam']}")
         gates = sorted(((r_.get('gate'), c['stack'], c['w']) for c, r_ in zip(cs, res) if r_.get('gate') is not None),
                        key=lambda t: -t[0] if t[0] == t[0] else 0)
         hist = {}
